@@ -24,7 +24,8 @@ RULE = ('cases = operation {C-GET, C-MOVE} x sub-operation count 0..6 x per-sub-
         '{success, warning, failure} x interleaving of pending C-GET responses with C-STORE '
         'requests x message ids x context ids x in-memory / file-backed reception x schedule '
         '(uniform, provider stalls); non-trivial = >= 2 sub-operations or the empty retrieve; '
-        'distinct = distinct scheduler signatures')
+        'distinct = distinct scheduler signatures'
+        '; destination real / never answering the release / unknown to the application / refusing the connection; C-GET handler outcomes incl. EventHandlingError; zero-remaining progress; a second retrieve on the same association')
 ASSUMPTIONS = ['"performed" = completed + failed + warning as reported (either the completed '
                'counter alone or the sum may equal k)',
                'all contexts of a C-GET association use one transfer syntax (documented '
